@@ -509,7 +509,7 @@ SETOP_TAILS = [[]] + [list(x) for r in (1, 2, 3) for x in itertools.permutations
 def setop_cases():
     for cls in CTXS:
         for op in SETOPS:
-            for optail in (0, 1, 2, 3, 4, 5):
+            for optail in (0, 1, 2, 3, 4, 5, 6):
                 for tail in SETOP_TAILS:
                     yield {"family": "setop", "cls": cls, "op": op, "optail": optail, "tail": tail}
 
@@ -557,6 +557,8 @@ def setop_program(case, tail):
         steps.append(["limit", [["raw", 5]]])
     if case["optail"] == 3:
         steps.append(["offset", [["raw", 4]]])
+    if case["optail"] == 6:
+        steps.append(["for_update", []])  # a locking clause of the FIRST operand
     other = {"cls": "inherit", "sources": {}, "steps": [["from_", [["src", "U"]]], ["select", [["col", "U", "a"]]]]}
     if case["optail"] == 5:
         # the SECOND operand brings a WITH clause of its own: it must stay one unit, or WITH would stand in the middle of the compound
@@ -595,7 +597,7 @@ def check_setop(case):
     # clauses of an operand must stay inside the operand: at depth 0 nothing but the operand's SELECT .. may precede the operator
     words = depth0_words(lex.lex(s1, cls))
     first = next(i for i, w in enumerate(words) if w in ("UNION", "INTERSECT", "EXCEPT", "MINUS"))
-    stray = [w for w in words[:first] if w in ("ORDER", "LIMIT", "OFFSET", "FETCH")]
+    stray = [w for w in words[:first] if w in ("ORDER", "LIMIT", "OFFSET", "FETCH", "FOR")]
     if stray:
         out.append((mksig("wellformed", cls, "operand_clause_outside_brackets"), "%s: the first operand's %s stands unbracketed before the operator, where the grammar ends the operand: %r" % (cls, "/".join(stray), s1)))
     # the last operand has no clauses of its own, so every ORDER / LIMIT / OFFSET / FETCH after it belongs to the set operation
@@ -617,7 +619,7 @@ def check_setop(case):
     if got != want:
         kind = "repeated_clause" if len(set(got)) < len(got) else ("clause_order" if sorted(got) == sorted(want) else "clause_set")
         out.append((mksig("wellformed", cls, kind, "setop_tail"), "%s tail calls %r render the clauses %r (expected %r): %r" % (cls, case["tail"], got, want, s1)))
-    if cls == "sqlite" and case["op"] != "minus":
+    if cls == "sqlite" and case["op"] != "minus" and case["optail"] != 6:  # (FOR UPDATE is not SQLite's)
         msg = sqlite_parse(s1)
         if msg:
             out.append((mksig("sqlite_parser", "setop", _near(msg)), "%s: %r" % (msg, s1)))
@@ -696,7 +698,7 @@ def valid_case(case):
         if case.get("family") == "setop_incomplete":
             return case in list(incomplete_setop_cases())
         if case.get("family") == "setop":
-            return case["cls"] in CTXS and case["op"] in SETOPS and case["optail"] in (0, 1, 2, 3, 4, 5) and case["tail"] in SETOP_TAILS
+            return case["cls"] in CTXS and case["op"] in SETOPS and case["optail"] in (0, 1, 2, 3, 4, 5, 6) and case["tail"] in SETOP_TAILS
         p = case["program"]
         n = len(p["steps"])
         if '["tbl", null' in json.dumps(p) or '"tbl", ""' in json.dumps(p):
